@@ -626,9 +626,12 @@ Definition mat_set (cs : list (string * vec)) (rows : list vec) (v : mval) (dt :
             let (r, e) := set_sparse cs (nth p rows []) ci kd dt (second k) in (upd_row rows p r, e)
         | MPair None ci =>
             match kn, ci, dt with
-            | 0%nat, COne (Pos i), DNum x => (map (fun r => wr r i x) rows, None)
-            | 3%nat, CMany ts, DNum x => (map (fun r => wr_all r (poss ts) x) rows, None)
-            | 3%nat, CMany ts, DVec xs => (map (fun r => wr_zip r (poss ts) xs) rows, None)
+            (* `if kind in (0, 3): self.data[:, chemical_index] = data` *)
+            | (0%nat | 3%nat), COne (Pos i), DNum x => (map (fun r => wr r i x) rows, None)
+            | (0%nat | 3%nat), CMany ts, DNum x =>
+                if existsb is_grp ts then (rows, Some EOther) else (map (fun r => wr_all r (poss ts) x) rows, None)
+            | (0%nat | 3%nat), CMany ts, DVec xs =>
+                if existsb is_grp ts then (rows, Some EOther) else (map (fun r => wr_zip r (poss ts) xs) rows, None)
             | 1%nat, COne (Grp l), DNum x =>
                 match comp_of cs (second k) with
                 | Some c => (map (fun r => wr_zip r l (vscale x c)) rows, None)
@@ -677,12 +680,6 @@ Inductive obs :=
 
 Definition rows_of (x : ixr) : list vec := match x with IC d => [d] | IM _ rows => rows end.
 
-Fixpoint add_zip (d : vec) (idx : list nat) (xs : vec) : vec :=
-  match idx, xs with
-  | i :: idx', x :: xs' => add_zip (wr d i (nthq d i + x)) idx' xs'
-  | _, _ => d
-  end.
-
 Definition step (vr : variant) (c : cfg) (s : state) (o : op) : state * obs :=
   match o with
   | OGet i k =>
@@ -727,7 +724,10 @@ Definition step (vr : variant) (c : cfg) (s : state) (o : op) : state * obs :=
           match r with
           | Ok (CMany ts) =>
               if existsb is_grp ts then (mkst cc' (smc s) (sixs s), BWr (Some EOther) [d])
-              else let d' := add_zip (vzero (length d)) (poss ts) vals in
+              (* data is cleared (mix_from([]) of the same-package operands), then
+                 `data[left_index] += idata[right_index]` = read, add, write back: on a repeated
+                 left position the last right entry wins *)
+              else let d' := wr_zip (vzero (length d)) (poss ts) vals in
                    (mkst cc' (smc s) (upd (sixs s) i (IC d')), BWr None [d'])
           | Ok _ => (mkst cc' (smc s) (sixs s), BWr (Some EOther) [d])
           | Err e => (mkst cc' (smc s) (sixs s), BWr (Some e) [d])
